@@ -169,6 +169,12 @@ def builder_spec(rnd, choice=None, kind=None):
     O["n1"] = obj("Network", bandwidth_energy_intensity=q(0.12, "kWh/GB"))
     O["up2"] = obj("UsagePattern", usage_journey=["ref", "uj2"], network=["ref", "n1"], country=["ref", "c0"], devices=["refs", ["d0"]],
                    hourly_usage_journey_starts=["h", [rnd.choice([1, 2, 4.5]) for _ in range(8)], "2025-01-01T02:00:00", "dimensionless"])
+    # a third video service that has NO job yet, installed on a server that nothing else uses (outside the system until a job is
+    # re-pointed to the service)
+    O["st3"] = obj("Storage", storage_capacity=q(1.13, "TB"))
+    O["srv1"] = obj("Server", storage=["ref", "st3"], server_type=["s", "autoscaling"], ram=q(128, "GB"))
+    O["video3"] = obj("VideoStreaming", server=["ref", "srv1"], bits_per_pixel=q(0.07, "dimensionless"), ram_buffer_per_user=q(20, "MB"),
+                      static_delivery_cpu_cost=q(3.7, "cpu_core * s / GB"))
     O["system"] = {"cls": "System", "params": {"usage_patterns": ["refs", ["up0", "up1", "up2"]]}}
     return {"objects": O, "system": "system"}
 
@@ -199,8 +205,9 @@ def twin_spec(spec, objs):
     for n, o in list(O.items()):
         if o["cls"] in SP.SERVICE_CLS:
             del O[n]
+    inside = SP.reachable(spec)
     for n, o in O.items():
-        if o["cls"] in ("Server", "GPUServer"):
+        if o["cls"] in ("Server", "GPUServer") and n in inside:
             live = objs[n]
             o["params"]["base_ram_consumption"] = vs_of(live.occupied_ram_per_instance)
             o["params"]["base_compute_consumption"] = vs_of(live.occupied_compute_per_instance)
@@ -258,7 +265,10 @@ def check_rules(spec, objs, V, C, ctx):
     D = _data()
     O = spec["objects"]
     bq = lambda v: 0.0 if isinstance(v, E.EmptyExplainableObject) else float(v.value.to_base_units().magnitude)
+    inside = SP.reachable(spec)
     for n, o in O.items():
+        if n not in inside:
+            continue          # objects outside the system are not computed
         P = o["params"]
         live = objs[n]
         bad = []
@@ -336,7 +346,7 @@ def builder_edit(rnd, spec):
     if k == "job_service" and "video2" in O:
         j = rnd.choice(["jvid", "jvid2"])
         cur = O[j]["params"]["service"][1]
-        return S(j, "service", ["ref", "video2" if cur == "video" else "video"])
+        return S(j, "service", ["ref", rnd.choice([v for v in ("video", "video2", "video3") if v != cur and v in O])])
     if k == "refresh": return S("jvid", "refresh_rate", ["q", rnd.choice([24, 30, 50, 60]), "1/s"])
     if k == "duration": return S("jvid", "video_duration", ["q", rnd.choice([10, 45, 61, 137]), "min"])
     if k == "bpp": return S("video", "bits_per_pixel", ["q", rnd.choice([0.05, 0.1, 0.2]), "dimensionless"])
